@@ -35,6 +35,8 @@ pub struct St {
     pub ew_inst: [Inst; NT],
     pub probe_inst: Inst,
     pub wr_added: [Vec<Vec<(Trig, Entity)>>; NT],
+    /// Actions of the current frame for the three frame systems (app mode): (run id, first seq, actions).
+    pub frame_acts: [Option<(RunId, u32, Vec<Act>)>; 3],
     pub fuel: u32,
     pub next_pay: u32,
     pub next_run: u32,
@@ -220,13 +222,29 @@ pub fn make_body_excl(
         ordinal += 1;
         *l += 1;
         let run;
+        let acts;
         {
-            let (mut r, mut acc, mut c) = state.get_mut(world);
+            let (mut r, _acc, _c) = state.get_mut(world);
             let (obs, held) = sample(&mut r);
             let ctx = begin_run(&sh, inst, ordinal, *l, obs);
             drop(held);
-            exec_acts(&sh, ctx.run, &ctx.acts, &mut c, &mut acc);
             run = ctx.run;
+            acts = ctx.acts;
+        }
+        // Direct nested calls made from inside the body (before anything is queued): probes and every second manual
+        // run are issued with `SystemCommand::apply(world)`.
+        let mut queued: Vec<(u32, Act)> = vec![];
+        for (seq, a) in acts.iter().enumerate() {
+            let direct = matches!(a, Act::Probe(false)) || matches!(a, Act::Run(x) if x % 2 == 1);
+            if !(direct && direct_act(world, &sh, run, seq as u32, a, Entry::WorldApi)) {
+                queued.push((seq as u32, a.clone()));
+            }
+        }
+        {
+            let (_r, mut acc, mut c) = state.get_mut(world);
+            for (seq, a) in queued.iter() {
+                exec_act(&sh, run, *seq, a, &mut c, &mut acc);
+            }
         }
         sh.push(Ev::BodyEnd { run, err: false });
         // Apply the commands queued by this body (the framework's cleanup command, queued on the world before
@@ -1037,6 +1055,7 @@ pub fn make_world(prog: Arc<Program>) -> Harness {
             ew_inst: [0; NT],
             probe_inst: 0,
             wr_added: Default::default(),
+            frame_acts: [None, None, None],
             fuel: 0,
             next_pay: 1,
             next_run: 1,
@@ -1112,6 +1131,9 @@ pub fn make_world(prog: Arc<Program>) -> Harness {
         st.ew_inst = [ew0, ew1];
         st.probe_inst = probe;
     }
+    if prog.ops.iter().any(|o| o.entry == Entry::Frame) {
+        add_frame_systems(&mut app, prog.frame_order);
+    }
     // runner hook
     {
         let sh2 = sh.clone();
@@ -1120,6 +1142,29 @@ pub fn make_world(prog: Arc<Program>) -> Harness {
         })));
     }
     Harness { app, sh }
+}
+
+//-------------------------------------------------------------------------------------------------------------------
+// App mode: ordinary systems of the `Update` schedule
+
+fn frame_system<const K: usize>(mut c: Commands, mut acc: Access, sh: Res<ShRes>) {
+    let job = lk(&sh.0.st).frame_acts[K].take();
+    let Some((run, seq0, acts)) = job else { return };
+    for (i, a) in acts.iter().enumerate() {
+        exec_act(&sh.0, run, seq0 + i as u32, a, &mut c, &mut acc);
+    }
+}
+
+fn add_frame_systems(app: &mut App, order: u8) {
+    let (a, b, c) = (frame_system::<0>, frame_system::<1>, frame_system::<2>);
+    match order % 6 {
+        0 => app.add_systems(Update, (a, b, c).chain()),
+        1 => app.add_systems(Update, (a, c, b).chain()),
+        2 => app.add_systems(Update, (b, a, c).chain()),
+        3 => app.add_systems(Update, (b, c, a).chain()),
+        4 => app.add_systems(Update, (c, a, b).chain()),
+        _ => app.add_systems(Update, (c, b, a).chain()),
+    };
 }
 
 //-------------------------------------------------------------------------------------------------------------------
@@ -1303,6 +1348,18 @@ fn direct_act(w: &mut World, sh: &Arc<Shared>, run: RunId, seq: u32, a: &Act, en
             direct_post(w, sh, cmd);
             true
         }
+        (Act::Probe(false), _) => {
+            let sc = {
+                let st = lk(&sh.st);
+                st.systems[st.probe_inst].cmd
+            };
+            let cmd = new_cmd(sh);
+            issued(sh, run, seq, cmd, RAct::Probe { via_syscall: false });
+            direct_pre(w, sh, cmd);
+            sc.apply(w);
+            direct_post(w, sh, cmd);
+            true
+        }
         (Act::Poll, _) => {
             let cmd = new_cmd(sh);
             issued(sh, run, seq, cmd, RAct::Poll);
@@ -1328,6 +1385,10 @@ pub const POLL_FUEL: u32 = 20;
 /// Runs one top-level op followed by the harness's poll phase. Panics propagate to the caller.
 pub fn run_op(h: &mut Harness, op_idx: usize, op: &Op) {
     let sh = h.sh.clone();
+    if op.entry == Entry::Frame {
+        run_frame(h, op_idx, op);
+        return;
+    }
     let w = h.app.world_mut();
     let run = {
         let mut st = lk(&sh.st);
@@ -1338,7 +1399,7 @@ pub fn run_op(h: &mut Harness, op_idx: usize, op: &Op) {
     };
     sh.push(Ev::OpStart { op: op_idx, entry: op.entry, run });
     match op.entry {
-        Entry::Syscall => syscall_acts(w, &sh, run, 0, op.acts.clone()),
+        Entry::Syscall | Entry::Frame => syscall_acts(w, &sh, run, 0, op.acts.clone()),
         entry => {
             for (i, a) in op.acts.iter().enumerate() {
                 if !direct_act(w, &sh, run, i as u32, a, entry) {
@@ -1359,6 +1420,47 @@ pub fn run_op(h: &mut Harness, op_idx: usize, op: &Op) {
     garbage_collect_entities(w);
     sh.push(Ev::PollEnd { op: op_idx });
     let snap = take_snap(w);
+    sh.push(Ev::Snapshot { op: op_idx, phase: 1, snap: snap.clone() });
+    let facts = sample_facts(w, &sh);
+    let ew_local = {
+        let st = lk(&sh.st);
+        let mut v = vec![];
+        for e in st.ents.iter() {
+            v.push((0u8, ebits(*e), hooks::has_entity_world_local::<Ew<0>>(w, *e)));
+            v.push((1u8, ebits(*e), hooks::has_entity_world_local::<Ew<1>>(w, *e)));
+        }
+        v
+    };
+    sh.push(Ev::Quiescent { op: op_idx, snap, facts, ew_local });
+}
+
+/// One `App::update()`: the op's actions are issued by three ordinary `Update` systems; garbage collection and the
+/// polling of removals / despawns happen in `Last`, as the plugin schedules them.
+fn run_frame(h: &mut Harness, op_idx: usize, op: &Op) {
+    let sh = h.sh.clone();
+    let run0 = {
+        let mut st = lk(&sh.st);
+        st.fuel = st.prog.fuel;
+        let r = st.next_run;
+        st.next_run += 3;
+        let mut split: [Vec<Act>; 3] = Default::default();
+        for (i, a) in op.acts.iter().enumerate() {
+            split[i % 3].push(a.clone());
+        }
+        for k in 0..3 {
+            st.frame_acts[k] = Some((r + k as u32, (k * 100) as u32, std::mem::take(&mut split[k])));
+        }
+        r
+    };
+    sh.push(Ev::OpStart { op: op_idx, entry: op.entry, run: run0 });
+    h.app.update();
+    let w = h.app.world_mut();
+    let facts = sample_facts(w, &sh);
+    sh.push(Ev::OpEnd { op: op_idx, facts });
+    let snap = take_snap(w);
+    sh.push(Ev::Snapshot { op: op_idx, phase: 0, snap: snap.clone() });
+    sh.push(Ev::PollStart { op: op_idx });
+    sh.push(Ev::PollEnd { op: op_idx });
     sh.push(Ev::Snapshot { op: op_idx, phase: 1, snap: snap.clone() });
     let facts = sample_facts(w, &sh);
     let ew_local = {
